@@ -259,6 +259,95 @@ def end_to_end(ctx):
     return stats
 
 
+def listings(ctx):
+    """The real `list_directory` of the three providers against the emulator with listing pages of 1..7 entries,
+    directories of 0..9 entries, a missing directory, and one fault at every request index: the model's result
+    (complete listing / not found / error, number of requests) must equal the real one, and a listing reported
+    as successful must be exactly the directory."""
+    from props import upload_common as uc
+    from vlib import emu as emu_mod
+    import random
+    rng = random.Random(ctx.seed + 606)
+    stats = {'cases': 0, 'faulted': 0, 'disagreements': 0}
+    sizes = [1, 2, 3, 7] if ctx.tier == 'thorough' else [rng.choice([1, 2]), rng.choice([3, 7])]
+    for ps in sizes:
+        stage = uc.Stage(ctx, 'list-%d' % ps, ['--page-size', str(ps)])
+        try:
+            for prov in uc.PROVIDERS:
+                for n in ([0, 1, 2, 3, 5, 9] if ctx.tier == 'thorough' else [0, 1, 3, rng.choice([5, 9])]):
+                    names = ['e%02d' % i for i in range(n)]
+                    kinds = ['dir' if i % 3 == 0 else 'file' for i in range(n)]
+                    ns = emu_mod.pe.load_namespace(stage.dir, prov)
+                    if ns.exists('/L'):
+                        ns.remove('/L')
+                    ns.mkdir('/L/D')
+                    for nm, k in zip(names, kinds):
+                        if k == 'dir':
+                            ns.mkdir('/L/D/' + nm)
+                        else:
+                            ns.put_file('/L/D/' + nm, b'x')
+                    emu_mod.pe.save_namespace(stage.dir, ns)
+                    stage.emu.reload()
+                    # how many list requests a healthy listing takes (Google resolves the path first: /, L, then D)
+                    pre = ([1, 1] if prov == 'google' else [])     # entries of `/` (L and Backups?) and of /L: one page each with ps >= 1? computed by the model below
+                    base = run_listing(ctx, stage, prov, '/L/D', [], ps, names, kinds, stats)
+                    nreq = base
+                    for j in range(nreq):
+                        for kind in (['status', 'badjson', 'reset-before'] if ctx.tier == 'thorough' else [['status', 'badjson', 'reset-before'][(j + n) % 3]]):
+                            run_listing(ctx, stage, prov, '/L/D', [(j, kind)], ps, names, kinds, stats)
+                    run_listing(ctx, stage, prov, '/L/missing', [], ps, None, None, stats)
+        finally:
+            stage.stop()
+    return stats
+
+
+def run_listing(ctx, stage, prov, path, faults, ps, names, kinds, stats):
+    from props import upload_common as uc
+    seq0 = stage.emu.seq()
+    stage.emu.new_requests()
+    stage.emu.set_script([{'fault': kind, 'match': {'seq': seq0 + 2 + j}} for j, kind in faults])
+    out = core.run_lines(core.harness_exe(ctx), [core.req('listdir', {'provider': prov, 'path': path, 'url_map': stage.emu.url_map})], timeout=60)[0]
+    reqs = [q for q in stage.settled_requests(seq0) if q.get('provider') == prov and q['endpoint'] != 'token']
+    stage.emu.set_script([])
+    stats['cases'] += 1
+    stats['faulted'] += 1 if faults else 0
+    script = ['ok'] * (max([j for j, _ in faults], default=-1) + 1)
+    for j, kind in faults:
+        script[j] = 'reject' if kind in ('status', 'reset-before') else 'lost'
+    case = {'provider': prov, 'path': path, 'page_size': ps, 'entries': len(names) if names is not None else None, 'faults': faults}
+    # the model: Google first resolves `/L` and `/L/D` by listing `/` and `/L` (one entry each: one page each)
+    if prov == 'google':
+        chain = [[0], [0]] + ([list(range(len(names)))] if names is not None else [])
+        used, res = 0, None
+        for idx, level in enumerate(chain):
+            m = core.run_lines(core.model_exe(), [core.req('listproto', {'provider': 'google', 'page_size': ps, 'entries': level, 'script': script[used:]})])[0]
+            used += m['requests']
+            if m['result'] != 'ok':
+                res = {'result': 'err', 'requests': used}
+                break
+            res = {'result': 'ok', 'entries': m['entries'], 'requests': used}
+        if names is None and res['result'] == 'ok':
+            res = {'result': 'notfound', 'requests': used}
+        model = res
+    else:
+        model = core.run_lines(core.model_exe(), [core.req('listproto', {'provider': prov, 'page_size': ps, 'entries': list(range(len(names))) if names is not None else None,
+                                                                         'script': script})])[0]
+    real = {'result': out.get('result') if isinstance(out, dict) else str(out)[:80], 'requests': len(reqs)}
+    if real['result'] == 'ok':
+        got = sorted((e[0], e[1]) for e in out['entries'])
+        want = sorted(zip(names, kinds))
+        if got != want:
+            ctx.violation('property', 'list_directory reports success with a listing that is not the directory: %d of %d entries [%s, page size %d, faults %s]'
+                          % (len(got), len(want), prov, ps, faults), {'case': case})
+            return len(reqs)
+    mview = {'result': model['result'], 'requests': model['requests']}
+    if mview != real:
+        stats['disagreements'] += 1
+        ctx.violation('correspondence', 'listing model and implementation differ: model %s, real %s (%s) [%s, page size %d, %s entries, faults %s]'
+                      % (mview, real, (out.get('error') if isinstance(out, dict) else ''), prov, ps, case['entries'], faults), {'case': case}, found_input=False)
+    return len(reqs)
+
+
 def check(ctx):
     aud = core.audit(ctx.prop)
     core.report_audit(ctx, aud)
@@ -292,7 +381,7 @@ def check(ctx):
         'rule': 'pairs (local groups, cloud groups) over a universe of group/backup names, each group absent/empty/non-empty on each side, '
                 'max_backup_groups 1..4, incoming ok flag, fault on any planned provider action; non-trivial = at least three group entries in total',
         'samples': [cases[0], cases[len(cases) // 3], cases[-1]],
-        'correspondence': st, 'end_to_end': end_to_end(ctx),
+        'correspondence': st, 'end_to_end': end_to_end(ctx), 'listings': listings(ctx),
         'disagreements_checked': st['cases'],
         'exhaustive': ctx.tier == 'thorough',
         'explanation': 'thorough: all assignments of {absent,empty,{b0},{b0,b1}} x {absent,empty,{b0},{b1},{b0,b1}} to 3 group names x max 1..3 x (no fault | fault at each planned action | ok=false), plus random states over 6 names',
